@@ -186,12 +186,12 @@ class Run:
             if isinstance(x, list):
                 return [denull(y) for y in x]
             if isinstance(x, dict):
-                return {k: denull(v) for k, v in x.items() if k not in ("case", "msg", "text", "json", "idl")}
+                return {k: denull(v) for k, v in x.items() if k not in ("case", "msg", "text", "json", "jsonb", "idl", "proto")}
             return x
 
         def clean(ln):
             # TLC's Json module aborts on null and has no use for the embedded replay case / messages
-            if "null" in ln or '"case":' in ln or '"msg":' in ln or '"text":' in ln or '"json":' in ln or '"idl":' in ln:
+            if "null" in ln or '"case":' in ln or '"msg":' in ln or '"text":' in ln or '"json":' in ln or '"idl":' in ln or '"proto":' in ln or '"jsonb":' in ln:
                 return json.dumps(denull(json.loads(ln)), separators=(",", ":"))
             return ln
 
